@@ -62,6 +62,9 @@ def snap_pattern(q):
         for f in PATTERN_FIELDS:
             v = getattr(q, f)
             d[f] = tuple(v) if isinstance(v, (list, tuple)) else v
+        # shape of the live cell grid, looked at BEFORE the byte image is asked for (producing the image must not reshape it)
+        rows = q.data
+        d["grid"] = (len(rows), tuple(sorted({len(r) for r in rows})))
         d["cells"] = q.raw_data
         return d
     d = {"kind": "clone"}
